@@ -302,6 +302,13 @@ def _int_case(draw):
     between = []
     if draw(st.integers(0, 2)) == 0:
         between = [draw(G.config(networks="always")) for _ in range(draw(st.integers(1, 2)))]
+        if draw(st.booleans()):
+            # all of them with the default prefix list (the only list the anonymizers could be sharing)
+            cfg["prefixes"] = None
+            cfg["mode"] = "default"
+            for oc in between:
+                oc["prefixes"] = None
+                oc["mode"] = "default"
         if fam == 4 and draw(st.booleans()):
             x = draw(G.addr_near([c for oc in between for c in oc["networks"]]))
     return {"fam": fam, "cfg": cfg, "x": x, "y0": y0, "hist": hist, "between": between}
